@@ -94,6 +94,10 @@ def r_star_table(ctx: Ctx, rule: str) -> None:
             # the element passed is the loop variable of this iteration
             head = SP.spawner_loop(ctx, f)
             a = ctx.call_arg(c.ast, t, pa)
+            if a is not None:
+                fr_a, _env_a, a = ctx.vals.trace(c.func, c.env, a)  # (through the parameters of helpers spliced into the consumer)
+                if fr_a is not f:
+                    a = None
             ok = None
             if head is not None and isinstance(head.ast, ast.For) and isinstance(a, ast.Name):
                 names = [x.id for x in ast.walk(head.ast.target) if isinstance(x, ast.Name)]
@@ -112,6 +116,28 @@ def r_lazy_iter(ctx: Ctx, rule: str) -> None:
 
     uses = [0]
     done = set()
+
+    def forwards_only(t, benv, names) -> bool:
+        tsc = ctx.an.scope(t)
+        tpar = {}
+        for node in tsc._own_nodes():
+            for ch in ast.iter_child_nodes(node):
+                tpar[id(ch)] = node
+        for node in tsc._own_nodes():
+            if isinstance(node, ast.Name) and node.id in names and isinstance(node.ctx, ast.Load):
+                par = tpar.get(id(node))
+                c2 = tpar.get(id(par)) if isinstance(par, (ast.Starred, ast.keyword)) else None
+                if not (isinstance(c2, ast.Call) and (isinstance(par, ast.Starred) or par.arg is None) and isinstance(c2.func, ast.Name) and c2.func.id in benv
+                        and not tsc.defs.get(c2.func.id)):
+                    return False
+                ref = benv[c2.func.id][1]
+                pc = sc_of(benv[c2.func.id][0]).callee(ast.copy_location(ast.Call(func=ref, args=[], keywords=[]), ref))
+                if not (pc.kind == "pkg" and pc.targets and all(x.name in ("_map", "_arg_consumer") for x in pc.targets)):
+                    return False
+        return not any(n in tsc.defs for n in names)
+
+    def sc_of(fn):
+        return ctx.an.scope(fn)
 
     def check(f, iters) -> None:
         key = (f.qual, tuple(sorted(iters)))
@@ -133,11 +159,17 @@ def r_lazy_iter(ctx: Ctx, rule: str) -> None:
                 if isinstance(call, ast.Call) and id(call) in ctx.an.spliced_at and (isinstance(par, ast.keyword) or node in call.args):
                     # handed to a helper that is spliced into this method: judged by what the helper does with it
                     t = ctx.an.spliced_at[id(call)]
-                    bound = {pn for pn, (_, arg, _e) in bind_args(call, t, f, None).items() if arg is node}
+                    benv = bind_args(call, t, f, None)
+                    bound = {pn for pn, (_, arg, _e) in benv.items() if arg is node}
+                    surplus = {pn for pn, (_, arg, _e) in benv.items() if isinstance(arg, ast.Tuple) and any(x is node for x in arg.elts)
+                               or isinstance(arg, ast.Dict) and any(x is node for x in arg.values)}
                     if bound:
                         check(t, bound)
                         ok = True
                         what = t.qual
+                    elif surplus:
+                        # one of the helper's *args / **kwargs: fine when the helper only forwards them, starred, to the consumer it was handed
+                        ok, what = forwards_only(t, benv, surplus), t.qual + " (*args)"
                 elif isinstance(par, ast.Call):
                     cal = sc.callee(par)
                     what = cal.name
@@ -205,9 +237,9 @@ def r_map_bound(ctx: Ctx, rule: str) -> None:
             t = s.callee.targets[0]
             e = ctx.call_arg(s.ast, t, "end_callback")
             ok = False
-            if isinstance(e, ast.Name) and e.id in sc.defs:
-                vals = ctx.vals.alts(s.func, e)
-                ok = bool(vals) and all(isinstance(v, ast.Call) and any(x.name == "_get_map_end_callback" for x in ctx.an.scope(s.func).callee(v).targets) for v in vals)
+            if isinstance(e, ast.Name):
+                vals = [(fr_, v) for fr_, _e, v in ctx.vals.leaves_at(s, e)]
+                ok = bool(vals) and all(isinstance(v, ast.Call) and any(x.name == "_get_map_end_callback" for x in ctx.an.scope(fr_).callee(v).targets) for fr_, v in vals)
             elif isinstance(e, ast.Call):
                 ok = any(x.name == "_get_map_end_callback" for x in sc.callee(e).targets)
             rep.ob(rule, "the end callback handed to _start_task is the semaphore-releasing wrapper", ok, node=s)
